@@ -37,3 +37,19 @@ Definition c14_witness : list kstim :=
 Theorem C14_wf_premise_witness : wf_from [] c14_witness.
 Proof. apply wf_fromb_sound. vm_compute. reflexivity. Qed.
 Print Assumptions C14_wf_premise_witness.
+
+(* EVERY history of stimuli on the model of the repaired core, for every configuration the property quantifies over
+   (MaxReconnectTime zero or not below ReconnectTime): at every quiescent point the current reconnect delay of every dialer
+   -- the interval [lo, hi] encloses every possible draw of the random back-off factor -- lies within
+   [ReconnectTime, MaxReconnectTime], and stays at ReconnectTime when no maximum is set (units: 1/10 ms). *)
+From MV Require Import Proofs.CoreBackoff.
+Theorem C14_backoff_within_bounds_all_histories : forall h, cfg_hist h ->
+  forall d x, get_d (krun kinit h) d = Some x ->
+  if kd_max x =? 0 then kd_lo x = kd_min x * 10 /\ kd_hi x = kd_min x * 10
+  else kd_min x * 10 <= kd_lo x /\ kd_lo x <= kd_hi x /\ kd_hi x <= kd_max x * 10.
+Proof. exact backoff_within_bounds_all_histories. Qed.
+Print Assumptions C14_backoff_within_bounds_all_histories.
+
+Theorem C14_cfg_premise_witness : cfg_hist c14_witness.
+Proof. cbn. repeat split; auto; right; vm_compute; discriminate. Qed.
+Print Assumptions C14_cfg_premise_witness.
